@@ -25,7 +25,7 @@ def say(*a):
     print(*a, flush=True); print(*a, file=log, flush=True)
 def baseline_tests():
     r = subprocess.run("cmake --build %s/_build -j12 2>&1 | grep -E 'error' | head -3; cd %s/_build && ctest -j5 --timeout 600 2>&1 | grep -E 'tests passed|Failed' | tr '\\n' ' '; cd unit_tests && ./bdd_bu_tree_aut_test 2>&1 | grep -c 'fatal error'" % (REPO, REPO), shell=True, stdout=subprocess.PIPE, text=True).stdout
-    return r.strip()
+    return re.sub(r'\s+\d+\.\d+ sec', '', r.strip())
 if not os.path.exists(REPO + "/_build"):
     subprocess.run("cmake -G Ninja -B %s/_build -S %s -DCMAKE_BUILD_TYPE=RelWithDebInfo > /dev/null" % (REPO, REPO), shell=True)
 BASE = baseline_tests(); say("baseline tests:", BASE)
